@@ -314,4 +314,88 @@ def queryContact (d : Iso3 K → Option (Contact3 K)) (pos1 pos2 : Iso3 K) : Opt
 def queryCastShapes {α : Type} (d : Iso3 K → V3 K → α) (pos1 : Iso3 K) (vel1 : V3 K) (pos2 : Iso3 K) (vel2 : V3 K) : α :=
   d (pos1.invMul pos2) (pos1.invRot (vel2.sub vel1))
 
+
+/-! ## 2-D (`parry2d`): the same sources compiled with `dim2` -/
+
+structure SupportMap2 (K : Type) where
+  support : Iso2 K → V2 K → V2 K
+  supportToward : Iso2 K → V2 K → V2 K
+
+@[inline] def cuboidLocalSupport2 (he dir : V2 K) : V2 K := ⟨copySign dir.x he.x, copySign dir.y he.y⟩
+
+@[inline] def cuboidSupportMap2 (he : V2 K) : SupportMap2 K where
+  support m dir := m.act (cuboidLocalSupport2 he (m.invRot dir))
+  supportToward m dir := m.act (cuboidLocalSupport2 he (m.invRot dir))
+
+@[inline] def ballSupportMap2 (r : K) : SupportMap2 K where
+  support m dir := m.t.add ((V2.normalize dir).smul r)
+  supportToward m dir := m.t.add (dir.smul r)
+
+structure Contact2 (K : Type) where
+  point1 : V2 K
+  point2 : V2 K
+  normal1 : V2 K
+  normal2 : V2 K
+  dist : K
+
+namespace Contact2
+@[inline] def flipped (c : Contact2 K) : Contact2 K := ⟨c.point2, c.point1, c.normal2, c.normal1, c.dist⟩
+@[inline] def transformBy (c : Contact2 K) (pos1 pos2 : Iso2 K) : Contact2 K :=
+  ⟨pos1.act c.point1, pos2.act c.point2, pos1.rot c.normal1, pos2.rot c.normal2, c.dist⟩
+end Contact2
+
+/-- `contact_halfspace_support_map` (dim2) -/
+def contactHS2 (pos12 : Iso2 K) (n : V2 K) (S : SupportMap2 K) (prediction : K) : Option (Contact2 K) :=
+  let deepest := S.supportToward pos12 n.neg
+  let distance := n.dot deepest
+  if distance ≤ prediction then
+    let point1 := deepest.sub (n.smul distance)
+    let point2 := pos12.invAct deepest
+    let normal2 := pos12.invRot n.neg
+    some ⟨point1, point2, n, normal2, distance⟩
+  else none
+
+/-- `contact_support_map_halfspace` (dim2), corrected as in 3-D -/
+def contactSH2 (pos12 : Iso2 K) (S : SupportMap2 K) (n : V2 K) (prediction : K) : Option (Contact2 K) :=
+  (contactHS2 pos12.inverse n S prediction).map Contact2.flipped
+
+/-- `contact_ball_ball` (dim2) -/
+def contactBallBall2 (pos12 : Iso2 K) (r1 r2 prediction : K) : Option (Contact2 K) :=
+  let center2_1 := pos12.t
+  let distanceSquared := center2_1.normSq
+  let sumRadius := r1 + r2
+  let sumRadiusWithError := sumRadius + prediction
+  if distanceSquared < sumRadiusWithError * sumRadiusWithError then
+    let normal1 := if !(neq distanceSquared 0) then V2.normalize center2_1 else V2.xAxis
+    let normal2 := (pos12.invRot normal1).neg
+    let point1 := normal1.smul r1
+    let point2 := normal2.smul r2
+    some ⟨point1, point2, normal1, normal2, Num.sqrt distanceSquared - sumRadius⟩
+  else none
+
+inductive Shape2 (K : Type) where
+  | ball (r : K)
+  | cuboid (he : V2 K)
+  | halfspace (n : V2 K)
+
+def Shape2.supportMap : Shape2 K → Option (SupportMap2 K)
+  | .ball r => some (ballSupportMap2 r)
+  | .cuboid he => some (cuboidSupportMap2 he)
+  | .halfspace _ => none
+
+/-- `details::contact_*` (dim2) for the closed-form pairs -/
+def detailsContact2 (s1 s2 : Shape2 K) (pos12 : Iso2 K) (prediction : K) : Option (Option (Contact2 K)) :=
+  match s1, s2 with
+  | .ball r1, .ball r2 => some (contactBallBall2 pos12 r1 r2 prediction)
+  | .halfspace n, s => s.supportMap.map fun S => contactHS2 pos12 n S prediction
+  | s, .halfspace n => s.supportMap.map fun S => contactSH2 pos12 S n prediction
+  | _, _ => none
+
+/-- `query::contact` (dim2) -/
+def queryContact2 (d : Iso2 K → Option (Contact2 K)) (pos1 pos2 : Iso2 K) : Option (Contact2 K) :=
+  (d (pos1.invMul pos2)).map fun c => c.transformBy pos1 pos2
+
+/-- `query::distance` / `query::intersection_test` (dim2) -/
+def queryScalar2 {α : Type} (d : Iso2 K → α) (pos1 pos2 : Iso2 K) : α := d (pos1.invMul pos2)
+
 end Model
